@@ -13,6 +13,7 @@
    Key: 16 octets < 256; COUNT < 2^32; BEARER < 32; DIRECTION < 2; message octets < 256.
    Length bounds (Go integer types): len < 2^60 octets for NIA1, bit length + 31 < 2^32 for NIA3
    (8 * len < 2^32 - 31 through the API). *)
+From NV Require C19.Globals.
 From NV Require Import Lib.Base CAES.Util CAES.Spec CAES.Proofs_aes CAES.Proofs C08.Glue.
 From NV Require CAES.Model CS3G.Model CS3G.Spec CZUC.Model CZUC.Spec.
 From NV Require Import Props.CS3G Props.CZUC Props.CAES.
@@ -78,7 +79,16 @@ Proof.
   split; [vm_compute; reflexivity|]. vm_compute. repeat split.
 Qed.
 
+(* the functions this property is about are functions of their arguments: the files it is anchored in declare
+   no package-level variable other than the pinned read-only tables (or a never-touched one of plain type) and
+   none of their functions writes, slices, takes the address of, passes on or calls a method of a
+   package-level variable (logger entries excepted) -- evaluated on the current source (C19/Globals.v) *)
+Theorem C07_anchor_files_keep_no_state :
+  Globals.hidden_state_free Globals.anchors_C07 = true.
+Proof. vm_compute. reflexivity. Qed.
+
 Print Assumptions C07_nia1_eq_eia1.
 Print Assumptions C07_nia2_eq_eia2.
 Print Assumptions C07_nia3_eq_eia3.
 Print Assumptions C07_nasmac_eq_standard.
+Print Assumptions C07_anchor_files_keep_no_state.
